@@ -121,3 +121,138 @@ def conformance(work: Work, max_parts=2, sd=0, stride=1):
 def _gen_cfg(max_parts):
     from common import SPEC
     return (SPEC / "DataElement_gen.cfg").read_text().replace("MaxParts = 3", f"MaxParts = {max_parts}")
+
+
+# ---------------------------------------------------------------------------------------------- code -> spec (DataElementTrace.tla)
+async def _record_run(n_parts_max, rng, tid):
+    """one random element; returns the trace dict or None if a part could not be rendered"""
+    import contextvars
+
+    import ahb
+    import ahbicht.expressions.ahb_expression_evaluation as aee
+    import valcheck
+    from ahbicht.models.validation_values import RequirementValidationValue as RV
+    from ahbicht.validation.validation import validate_data_element_freetext
+    from maus.models.edifact_components import DataElementFreeText
+    n = rng.randint(1, n_parts_max)
+    prefix = n == 1 and rng.random() < 0.3
+    parts, rc, fc, hints, expr = [], {}, {}, {}, ""
+    for i in range(1, n + 1):
+        ind = "PFX" if prefix else rng.choice(["MUSS", "SOLL", "KANN"])
+        bare = (i == n) and rng.random() < 0.3
+        st = rng.choice("FUKN")
+        f = rng.choice(["none", "ok", "bad"])
+        word = rng.choice(IND_WORDS[ind])
+        if bare:
+            parts.append({"ind": ind, "bare": True, "st": "N", "fc": "none"})
+            expr += word
+            continue
+        if st != "N":
+            rc[i] = st
+        fc[900 + i] = f != "bad"
+        hints[500 + i] = ahb.hint_text(500 + i)
+        ahb.set_cer_values(rc=rc, fc=fc, hints=hints)
+        cond = rng.choice(templates(i, st, f))
+        ful, f_own, _ = await own(cond)
+        # the part as the model sees it: what its condition expression gives ON ITS OWN
+        st_own = {"T": ("N" if st == "N" else "F"), "F": "U", "K": "K"}[ful]
+        parts.append({"ind": ind, "bare": False, "st": st_own, "fc": f_own})
+        expr += word + rng.choice(["", " "]) + cond + " "
+    expr = expr.rstrip() if parts[-1]["bare"] else expr
+    inp = "abc" if rng.random() < 0.5 else rng.choice([None, ""])
+    seg_name = rng.choice(["NONE", "REQUIRED", "OPTIONAL"])
+    seg = {"NONE": None, "REQUIRED": RV.IS_REQUIRED, "OPTIONAL": RV.IS_OPTIONAL}[seg_name]
+    soll = rng.random() < 0.5
+    events = []
+    cur = contextvars.ContextVar("verif_de_part", default=0)
+    real_rc, real_fc = aee.requirement_constraint_evaluation, aee.format_constraint_evaluation
+
+    def part_of(cond_expr):
+        from lark import Token, Tree
+        if isinstance(cond_expr, Tree):
+            keys = [t.value for t in cond_expr.scan_values(lambda v: isinstance(v, Token))]
+        else:
+            import re
+            keys = re.findall(r"\d+", str(cond_expr))
+        return int(keys[0]) % 100
+
+    async def rc_wrapper(cond_expr):
+        i = part_of(cond_expr)
+        cur.set(i)
+        for _ in range(rng.randrange(4)):
+            await asyncio.sleep(0)
+        try:
+            return await real_rc(cond_expr)
+        finally:
+            for _ in range(rng.randrange(3)):
+                await asyncio.sleep(0)
+            events.append({"ev": "rc", "i": i})
+
+    async def fc_wrapper(fc_expr):
+        i = cur.get()
+        for _ in range(rng.randrange(4)):
+            await asyncio.sleep(0)
+        try:
+            return await real_fc(fc_expr)
+        finally:
+            events.append({"ev": "fc", "i": i})
+
+    de = DataElementFreeText(discriminator="n1", ahb_expression=expr, entered_input=inp, data_element_id="1234")
+    ahb.set_cer_values(rc=rc, fc=fc, hints=hints)
+    aee.requirement_constraint_evaluation, aee.format_constraint_evaluation = rc_wrapper, fc_wrapper
+    try:
+        r = await validate_data_element_freetext(de, seg, soll)
+        v = r.validation_result
+        status, fill = valcheck.STATUS[str(v.requirement_validation)]
+        events.append({"ev": "done", "status": status, "fill": fill, "fmt": v.format_validation_fulfilled is True, "msg": bool(v.format_error_message)})
+    except NotImplementedError:
+        events.append({"ev": "done", "status": "ERROR", "fill": "", "fmt": True, "msg": False})
+    except BaseException as e:  # pylint:disable=broad-except  # noqa: BLE001
+        events.append({"ev": "done", "status": f"EXC {type(e).__name__}", "fill": "", "fmt": True, "msg": False})
+    finally:
+        aee.requirement_constraint_evaluation, aee.format_constraint_evaluation = real_rc, real_fc
+    # bare parts are not evaluated by the code (constant result): the model's EvalRc / EvalFc for them are silent steps, logged here so that Select is enabled
+    for i, p in enumerate(parts, start=1):
+        if p["bare"]:
+            events.insert(len(events) - 1, {"ev": "rc", "i": i})
+            events.insert(len(events) - 1, {"ev": "fc", "i": i})
+    return {"id": tid, "expr": expr, "parts": parts, "inp": "text" if inp else "none", "seg": seg_name, "soll": soll, "events": events}
+
+
+def trace_conformance(work: Work, n=1500, sd=0, max_parts=4):
+    import ahb
+    from common import validate_traces
+    ahb.configure()
+    rng = random.Random(1000 + sd)
+
+    async def go():
+        return [await _record_run(max_parts, rng, tid) for tid in range(1, n + 1)]
+    traces = asyncio.run(go())
+    orders = {tuple((e["ev"], e["i"]) for e in t["events"][:-1]) for t in traces}
+    interleaved = sum(1 for t in traces if any(a["ev"] == "rc" and b["ev"] == "rc" for a, b in zip(t["events"], t["events"][1:])))
+    # binding demonstration: corrupted copies of recorded runs must be refused (wrong format verdict; format before requirement; one event dropped; wrong status)
+    import copy
+    corrupted = []
+    for t in traces:
+        if len(corrupted) >= 40:
+            break
+        ev = t["events"]
+        if ev[-1]["status"] in ("ERROR",) or ev[-1]["status"].startswith("EXC"):
+            continue
+        c1 = copy.deepcopy(t); c1["id"] = 900000 + 4 * t["id"]; c1["events"][-1]["fmt"] = not ev[-1]["fmt"]; c1["what"] = "format verdict flipped"
+        c2 = copy.deepcopy(t); c2["id"] = 900001 + 4 * t["id"]; c2["what"] = "format before requirement"
+        k = next(j for j, e in enumerate(ev) if e["ev"] == "fc")
+        kr = next(j for j, e in enumerate(ev) if e["ev"] == "rc" and e["i"] == ev[k]["i"])
+        c2["events"][k], c2["events"][kr] = c2["events"][kr], c2["events"][k]
+        c3 = copy.deepcopy(t); c3["id"] = 900002 + 4 * t["id"]; del c3["events"][0]; c3["what"] = "first event dropped"
+        c4 = copy.deepcopy(t); c4["id"] = 900003 + 4 * t["id"]; c4["what"] = "status changed"
+        c4["events"][-1]["status"] = {"REQUIRED": "OPTIONAL", "OPTIONAL": "FORBIDDEN", "FORBIDDEN": "REQUIRED"}[ev[-1]["status"]]
+        corrupted += [c1, c2, c3, c4]
+    res, accepted, diag = validate_traces("DataElementTrace", "DataElementTrace.cfg", traces + corrupted, work, tag="de-tr")
+    wrongly_accepted = [c["what"] for c in corrupted if c["id"] in accepted]
+    rejected = [t for t in traces if t["id"] not in accepted]
+    return {"module": "DataElementTrace.tla", "runs_recorded": len(traces), "accepted_by_tlc": len(accepted), "distinct_completion_orders": len(orders),
+            "runs_with_interleaved_parts": interleaved, "tlc_states": res["states"],
+            "corrupted_copies": len(corrupted), "corrupted_copies_accepted": wrongly_accepted,
+            "rejected": [{"expr": t["expr"], "parts": t["parts"], "inp": t["inp"], "seg": t["seg"], "soll": t["soll"], "events": t["events"],
+                          "refused_at_event": diag.get(t["id"], (0, ()))[0]} for t in rejected[:10]], "rejected_count": len(rejected)}
